@@ -3,6 +3,7 @@ import ElfioVerif.Driver.Common
 import ElfioVerif.Model.Load
 import ElfioVerif.Model.Validate
 import ElfioVerif.Model.Writer
+import ElfioVerif.Model.Inspect
 namespace ElfioVerif.Drv.Load
 open ElfioVerif ElfioVerif.Drv
 
@@ -204,7 +205,115 @@ def wstep (d : DObj) (t : List String) : Option (M (DObj × String)) :=
     pure ({ d with o := r.obj }, s!"load={r.ok}")
   | _ => none
 
+-- ---- C01 inspection ops: helpers (same formats as harness/load.cpp) ----
+
+/-- bytes as the harness' `datastr( p, n )` prints them -/
+def bytesStr (v : Bytes) : String :=
+  if v.length ≤ 64 then hexOfBytes v else s!"len:{v.length}:fnv:{fnv v}"
+
+/-- boundary index set {0,1,count-1,count,count+1,size-1,size,2^32-1[,2^64-1]}, distinct, in this order -/
+def bidx (count : Nat) (size : Option Nat) (wide : Bool) : List Nat :=
+  let c := [0, 1] ++ (if count ≥ 1 then [count - 1] else []) ++ [count, count + 1] ++
+    (match size with
+     | some sz => (if sz ≥ 1 then [sz - 1] else []) ++ [sz]
+     | none => []) ++ [4294967295] ++ (if wide then [18446744073709551615] else [])
+  (c.filter fun v => wide || v ≤ 4294967295).eraseDups
+
+def noteStr : Option NoteOut → String
+  | none => "false"
+  | some n => s!"{n.type.toNat}/{bytesStr n.name}/" ++
+      (match n.desc with | some d => bytesStr d | none => "null") ++ s!"/{n.descSize.toNat}"
+
+def dynStr : GetRes → String
+  | .invalid => "false/0/0/-"
+  | .nostr t v => s!"false/{t.toNat}/{v.toNat}/-"
+  | .ok t v s => s!"true/{t.toNat}/{v.toNat}/{bytesStr s}"
+
+def symStr (r : Inspect.SymOut) : String :=
+  s!"{r.ret}/{bytesStr r.name}/{r.attrs.value.toNat}/{r.attrs.size.toNat}/{r.attrs.bind.toNat}/{r.attrs.typ.toNat}/{r.attrs.shndx.toNat}/{r.attrs.other.toNat}"
+
+def attrStr (a : Modinfo.Attr) : String := bytesStr a.1 ++ "=" ++ bytesStr a.2
+
+/-- runs the queries one after the other on the model (`Inspect.inspect`); the first fault ends the op -/
+def runQueries (o : Obj) (qs : List Inspect.Query) (render : Inspect.Query → Inspect.Out → String) :
+    Obj × Except String (List String) :=
+  let rec go (o : Obj) (qs : List Inspect.Query) (acc : List String) : Obj × Except String (List String) :=
+    match qs with
+    | [] => (o, .ok acc.reverse)
+    | q :: rest =>
+      match Inspect.inspect o q with
+      | .error f => (o, .error f.render)
+      | .ok (o1, out) => go o1 rest (render q out :: acc)
+  go o qs []
+
+/-- `count query`, then the per-index queries of the boundary set, all through `Inspect.inspect` -/
+def countedOp (o : Obj) (name : String) (numQ : Inspect.Query) (size : Obj → Option Nat) (wide : Bool)
+    (idxQ : Nat → Inspect.Query) (render : Inspect.Out → String) : Obj × String :=
+  match Inspect.inspect o numQ with
+  | .error f => (o, f.render)
+  | .ok (o1, .num n) =>
+    let ks := bidx n (size o1) wide
+    match runQueries o1 (ks.map idxQ) (fun _ out => render out) with
+    | (o2, .ok outs) =>
+      (o2, s!"{name} n={n}" ++ String.join ((ks.zip outs).map fun (k, s) => s!" {k}:{s}"))
+    | (o2, .error e) => (o2, e)
+  | .ok (o1, _) => (o1, "null")
+
+def modinfoOp (o : Obj) (i : Nat) : Obj × String :=
+  match Inspect.inspect o (.modinfo i) with
+  | .error f => (o, f.render)
+  | .ok (o1, .attrs c) =>
+    let n := (Modinfo.num c).toNat
+    let ks := bidx n none false
+    let names : List Bytes := (match c.head? with | some a => if n > 0 then [a.1] else [] | none => []) ++
+      ["zz_absent".toUTF8.toList]
+    let qs := ks.map (fun k => Inspect.Query.modinfoGet i (BitVec.ofNat 32 k)) ++
+      names.map (fun f => Inspect.Query.modinfoByName i f)
+    let render (q : Inspect.Query) (out : Inspect.Out) : String :=
+      match q, out with
+      | .modinfoGet _ k, .attr (some a) => s!" get:{k.toNat}:{attrStr a}"
+      | .modinfoGet _ k, _ => s!" get:{k.toNat}:false"
+      | .modinfoByName _ f, .value (some v) => s!" byname:{bytesStr f}={bytesStr v}"
+      | .modinfoByName _ f, _ => s!" byname:{bytesStr f}=false"
+      | _, _ => ""
+    match runQueries o1 qs render with
+    | (o2, .ok outs) =>
+      (o2, s!"modinfo n={n}" ++ String.join (((c.take n).take 64).map fun a => " " ++ attrStr a) ++ String.join outs)
+    | (o2, .error e) => (o2, e)
+  | .ok (o1, _) => (o1, "null")
+
+/-- the C01 inspection ops; `none`: not one of them -/
+def inspectStep (o : Obj) (t : List String) : Option (Obj × String) :=
+  match t with
+  | ["notes", i] =>
+    let i := parseNat i
+    some (countedOp o "notes" (.noteNum i) (fun o => (o.secs[i]?).map (·.size.toNat)) false
+      (fun k => .note i (BitVec.ofNat 32 k)) (fun out => match out with | .note r => noteStr r | _ => "?"))
+  | ["segnotes", j] =>
+    let j := parseNat j
+    some (countedOp o "segnotes" (.segNoteNum j) (fun o => (o.segs[j]?).map (·.filesz.toNat)) false
+      (fun k => .segNote j (BitVec.ofNat 32 k)) (fun out => match out with | .note r => noteStr r | _ => "?"))
+  | ["dyn", i] =>
+    let i := parseNat i
+    some (countedOp o "dyn" (.dynNum i) (fun _ => none) true
+      (fun k => .dyn i (BitVec.ofNat 64 k)) (fun out => match out with | .dyn r => dynStr r | _ => "?"))
+  | ["syms", i] =>
+    let i := parseNat i
+    some (countedOp o "syms" (.symNum i) (fun _ => none) true
+      (fun k => .sym i (BitVec.ofNat 64 k)) (fun out => match out with | .sym r => symStr r | _ => "?"))
+  | ["modinfo", i] => some (modinfoOp o (parseNat i))
+  | ["dump"] =>
+    match Inspect.inspect o .dump with
+    | .error f => some (o, f.render)
+    | .ok (o1, _) => some (o1, "dump=ok")
+  | _ => none
+-- ---- end of C01 inspection helpers ----
+
 def step (o : Obj) (t : List String) : Obj × String :=
+  -- ---- C01 inspection ops (notes, segnotes, dyn, syms, modinfo, dump): Model/Inspect.lean
+  match inspectStep o t with
+  | some r => r
+  | none =>
   match t with
   | "trans" :: rest => ({ o with trans := sortTrans (parseTrans rest) }, "ok")
   | "load" :: h :: rest =>
@@ -257,7 +366,6 @@ def step (o : Obj) (t : List String) : Obj × String :=
     let ov := cs.filter (fun c => match c with | .overlap _ _ => true | _ => false) |>.length
     let cf := cs.filterMap (fun c => match c with | .conflict h => some h | _ => none)
     (o, s!"validate overlaps={ov} conflicts={joinNats cf}")
-  | ["dump"] => (o, "dump=ok")
   | _ => (o, "bad-op")
 
 def runCase (ops : List (List String)) : List String :=
